@@ -71,9 +71,12 @@ enum Outcome {
 const WATCHDOG_SECS: u64 = 20;
 
 fn run_fit(c: &Case, y: &[f64]) -> Outcome {
+    run_fit_secs(c, y, WATCHDOG_SECS)
+}
+fn run_fit_secs(c: &Case, y: &[f64], secs: u64) -> Outcome {
     let c = c.clone();
     let y = y.to_vec();
-    let r = with_watchdog(WATCHDOG_SECS, move || {
+    let r = with_watchdog(secs, move || {
         VERIF_LASSO_RUNS.with(|r| r.borrow_mut().clear());
         let x = if c.x.is_empty() { DenseMatrix::from_2d_vec(&vec![vec![]]) } else { dense(&c.x) };
         let res: Result<FitOut, String> = if c.enet {
@@ -234,6 +237,9 @@ fn reference(c: &Case, y: &[f64]) -> Reference {
 /// multiple of tol allowed by the oracle ("a small multiple of tol")
 const C_TOL: f64 = 2.0;
 
+/// id in KNOWN_FINDINGS.txt; a `Fail` with this oracle is reported through `out.known`
+const KNOWN_CONSTANT_TARGET: &str = "constant-target";
+
 struct Fail {
     oracle: &'static str,
     what: String,
@@ -286,6 +292,22 @@ fn evaluate(c: &Case) -> (Vec<Fail>, Option<(Outcome, Reference)>) {
     let mut fails = vec![];
     let who = if c.enet { "elastic net" } else { "lasso" };
     let rf = reference(c, &c.y);
+    if rf.yc.iter().all(|v| *v == 0.0) {
+        // KNOWN FINDING constant-target: the centred target is exactly zero
+        let base = run_fit_secs(c, &c.y, 3);
+        match &base {
+            Outcome::Timeout => fails.push(Fail { oracle: KNOWN_CONSTANT_TARGET, what: format!("{}: fit on a constant target never returns (gap = dobj = 0, NaN Newton direction, unbounded line search)", who) }),
+            Outcome::Err(e, _) if e.contains("tolerance shoud be > 0") => {
+                fails.push(Fail { oracle: KNOWN_CONSTANT_TARGET, what: format!("{}: fit on a constant target returns Err({}) instead of the zero coefficients", who, e) })
+            }
+            Outcome::Panic(m) => fails.push(Fail { oracle: "no_panic", what: format!("{}: fit on a constant target panicked: {}", who, m) }),
+            Outcome::Err(e, _) => fails.push(Fail { oracle: "valid_input_fits", what: format!("{}: fit on a constant target returned Err: {}", who, e) }),
+            Outcome::Ok(f, _) => {
+                check_fit(c, &c.y, f, &rf, &mut fails);
+            }
+        }
+        return (fails, Some((base, rf)));
+    }
     let base = run_fit(c, &c.y);
     let mut base_w: Option<(FitOut, Vec<f64>)> = None;
     match &base {
@@ -421,6 +443,11 @@ fn gen_xy(rng: &mut Rng, n: usize, p: usize, mean_mode: usize, dyadic: bool) -> 
             *v = (*v * 16.0).round() / 16.0;
         }
     }
+    // the random families keep the target non-constant (constant targets are the known finding
+    // `constant-target`, probed by their own family)
+    if y.iter().all(|v| *v == y[0]) {
+        y[0] += 1.0;
+    }
     (x, y)
 }
 
@@ -525,7 +552,12 @@ fn corr_case(out: &mut Out, c: &Case, group: &str) {
 // ------------------------------------------------------------------------------------------
 fn record(out: &mut Out, c: &Case, fails: Vec<Fail>, entry: &str) {
     for f in fails {
-        out.fail(f.oracle, &f.what, case_json(c, entry));
+        if f.oracle == KNOWN_CONSTANT_TARGET {
+            out.known(KNOWN_CONSTANT_TARGET, &format!("{} [x = {:?}, y = {:?}, alpha = {:e}, normalize = {}]", f.what, c.x, c.y, c.alpha, c.normalize));
+            out.count("search:known:constant-target");
+        } else {
+            out.fail(f.oracle, &f.what, case_json(c, entry));
+        }
     }
 }
 
@@ -605,7 +637,6 @@ fn replay(path: &str) -> i32 {
     if std::env::var("C08_DEBUG").is_ok() {
         // print the optimiser's records of the base fit (diagnosis aid; not part of the check)
         match run_fit(&c, &c.y) {
-            Outcome::Ok(f, runs) | Outcome::Err(_, runs) if false => { let _ = (f, runs); }
             Outcome::Ok(_, runs) | Outcome::Err(_, runs) => {
                 for r in &runs {
                     println!("lambda={:e} tol={:e} t0={:e} exit={} iters={} y={:?}", r.lambda, r.tol, r.t0, r.exit, r.iters.len(), r.y);
@@ -621,6 +652,15 @@ fn replay(path: &str) -> i32 {
         "invalid" => evaluate_invalid(&c),
         _ => evaluate(&c).0,
     };
+    let fails: Vec<Fail> = fails
+        .into_iter()
+        .filter(|f| {
+            if f.oracle == KNOWN_CONSTANT_TARGET {
+                println!("REPLAY: property=C08 known finding {}: {}", KNOWN_CONSTANT_TARGET, f.what);
+            }
+            f.oracle != KNOWN_CONSTANT_TARGET
+        })
+        .collect();
     if fails.is_empty() {
         println!("REPLAY: property=C08 passes: {}", path);
         0
@@ -704,6 +744,25 @@ fn main() {
             continue;
         }
         search_case(&mut out, &c, "small");
+    }
+    // constant targets (known finding `constant-target`): Err("tolerance shoud be > 0") for a generic alpha,
+    // a hang when n*alpha is a power of two below 1 (one such probe per run: the stuck thread is leaked)
+    for i in 0..(if a.thorough { 12 } else { 4 }) {
+        let enet = i % 2 == 1;
+        let mut c = gen_case(&mut rng, 12, 3, enet, false);
+        let v = *rng.pick(&[0.0, 1.0, 15.5625, -3.0]);
+        for yi in c.y.iter_mut() {
+            *yi = v;
+        }
+        c.shift = 0.0;
+        if i == 0 {
+            c.enet = false;
+            c.alpha = 0.25 / c.x.len() as f64;
+        }
+        out.eval(case_key(&c), false);
+        out.count("search:constant-target");
+        let (fails, _) = evaluate(&c);
+        record(&mut out, &c, fails, "fit");
     }
     // invalid settings
     for _ in 0..(if a.thorough { 150 } else { 25 }) {
